@@ -284,21 +284,24 @@ Definition edited (s : bytes) (ops : list op) : option tbl :=
 Definition printed (s : bytes) (ops : list op) : option bytes :=
   match edited s ops with Some r => Some (display_document r REmpty) | None => None end.
 
-(* C08-key-decor-in-header: `Item::into_table` stored back in the slot (likewise `doc["c"] = table()`)
-   keeps the stored key, whose leaf decor holds the comment line above the entry; the header is
-   printed as `[# c<newline>c ]`: NOT valid TOML *)
-Theorem C08_text_valid_refuted :
-  exists s ops txt, printed s ops = Some txt /\ forall d, parse_document txt <> POk d.
-Proof.
-  exists (str "# c
-c = { x = 1 }
-"), [OIntoTable [] (str "c")], (str "[# c
-c ]
+(* (formerly C08_text_valid_refuted, known finding C08-key-decor-in-header, repaired in /repo: "fix: write a key's
+   comments in front of the table header") `Item::into_table` stored back in the slot (likewise `doc["c"] = table()`)
+   keeps the stored key, whose leaf decor holds the comment line above the entry; the header used to be printed as
+   `[# c<newline>c ]`, which is not valid TOML.  The comment is now written in front of the header: the text is valid
+   and keeps the comment. *)
+Theorem C08_key_comment_moves_in_front_of_header :
+  exists s ops txt d2, printed s ops = Some txt /\ parse_document txt = POk d2 /\
+    txt = str "# c
+[c ]
 x = 1
-").
-  split; [vm_compute; reflexivity|]. intros d H. vm_compute in H. discriminate H.
+".
+Proof.
+  eexists (str "# c
+c = { x = 1 }
+"), [OIntoTable [] (str "c")], _, _.
+  split; [vm_compute; reflexivity|]. split; [vm_compute; reflexivity|]. reflexivity.
 Qed.
-Print Assumptions C08_text_valid_refuted.
+Print Assumptions C08_key_comment_moves_in_front_of_header.
 
 (* C06-table-in-inline (DESIGN.md F13): a table assigned under an inline-table parent is dropped by
    the printer — the text is valid TOML but its content is not the edited content *)
